@@ -90,7 +90,7 @@ Theorem set_doc_some_leaf_WF h s d : WF h -> s < nnodes h -> d < ndocs h -> t_se
   n_first (nd h s) = None -> WF (heap_of (set_doc_m h s (Some d))).
 Proof.
   intros HW Hs Hd T F. unfold set_doc_m. rewrite set_doc_rec_S.
-  rewrite dfs_S, (kids_no_first _ _ F). simpl dfs_list. simpl option_map. simpl existsb. rewrite ?orb_false_r.
+  rewrite dfs_S, (kids_no_first _ _ F). simpl dfs_list. simpl option_map. cbn [existsb]. rewrite orb_false_r.
   destruct (is_some (n_doc (nd h s))) eqn:A; [exact HW|]. simpl bind.
   rewrite (set_doc_leaf _ _ _ _ F). simpl. apply is_some_false in A.
   unfold t_set_doc_on_child in T. rewrite A in T. simpl in T. rewrite andb_true_r in T. apply is_some_false in T.
